@@ -6,11 +6,13 @@ import (
 	"os"
 
 	"verifharness/c05"
+	"verifharness/c18"
 	"verifharness/wk"
 )
 
 var runners = map[string]func(*wk.Job, *wk.Worker) error{
 	"c05": c05.Run,
+	"c18": c18.Run,
 }
 
 func main() {
